@@ -193,7 +193,7 @@ def execute(case, ctx):
     world, config = case["world"], case["config"]
     names = Names(world)
     ref = RefJoint.from_bn(world)
-    backend = seams.effective_backend(case.get("backend", "numpy"), [x for t in world["tables"] for row in t for x in row])
+    backend = seams.effective_backend(case.get("backend", "numpy"), [[x for row in t for x in row] for t in world["tables"]])
     seams.set_backend(backend)
     if backend != "numpy":
         ctx.fault("backend_config")
